@@ -184,6 +184,9 @@ func VH_Fault(a []int) {
 	ssc.queue = q
 	key := vNS + "/" + vSetName
 	w.faultBudget, w.faultKinds, w.crashAt = 1, kinds, crash == 1
+	if len(a) > 6 {
+		w.faultBudget = a[6] // pairs of failures in one reconcile
+	}
 	crashed := false
 	var err error
 	func() {
@@ -230,6 +233,9 @@ func VH_Fault(a []int) {
 	}
 	if len(w.faulted) > 0 {
 		sym.Cover("a call failed")
+	}
+	if len(w.faulted) > 1 {
+		sym.Cover("two calls failed in one reconcile")
 	}
 	if unrecovered && !crashed {
 		sym.Disc(w.faulted[0])
